@@ -4,6 +4,7 @@ import os
 import re
 import shutil
 import subprocess
+import tempfile
 import time
 from concurrent.futures import ThreadPoolExecutor
 
@@ -20,7 +21,11 @@ class MachineryError(Exception):
 
 
 def _java(args, env=None, timeout=3600, cwd=SPEC, heap="3g", extra_jvm=()):
-    cmd = ["java", "-XX:+UseParallelGC", "-Xss512m", "-Xmx" + heap] + list(extra_jvm) + ["-cp", JAR, "tlc2.TLC"] + args
+    # TLC and SANY create scratch directories in java.io.tmpdir and leave them behind: keep them out of /tmp
+    os.makedirs(os.path.join(OUT, "meta"), exist_ok=True)
+    jtmp = tempfile.mkdtemp(prefix="jtmp-", dir=os.path.join(OUT, "meta"))
+    cmd = (["java", "-XX:+UseParallelGC", "-Xss512m", "-Xmx" + heap, "-Djava.io.tmpdir=" + jtmp] + list(extra_jvm)
+           + ["-cp", JAR, "tlc2.TLC"] + args)
     e = dict(os.environ)
     if env:
         e.update(env)
@@ -34,6 +39,8 @@ def _java(args, env=None, timeout=3600, cwd=SPEC, heap="3g", extra_jvm=()):
         if isinstance(out, bytes):
             out = out.decode("utf-8", "replace")
         rc = -9
+    finally:
+        shutil.rmtree(jtmp, ignore_errors=True)
     return rc, out, time.time() - t0
 
 
